@@ -1,6 +1,7 @@
 package props
 
 import (
+	"encoding/json"
 	"fmt"
 	"strings"
 	"testing"
@@ -17,13 +18,14 @@ type c16Case struct {
 	Critical *bool
 	JSON     bool
 	Plain    bool
+	Twin     bool `json:",omitempty"` // a second entity in the same run whose admission differs only in how the profession items are divided up
 }
 
 func TestC16(t *testing.T) {
 	allowLongTexts = true
 	r := core.Start(t, "C16")
 	defer r.Finish()
-	r.Rule = "admission trees: optional top-level authority; 1-3 admissions each with optional authority (dns, mail, url, ip) and optional namingAuthority (every subset of oid/url/text); 1-3 professionInfos each with optional namingAuthority, 1-3 UTF-8 professionItems, 0-3 professionOids, optional PrintableString registrationNumber, optional addProfessionInfo (!binary up to 900 bytes or !null); 5% of names are 120-300 characters (long-form lengths inside explicit tags). Oracle: extnValue must equal byte for byte the AdmissionSyntax encoding built by the harness (explicit [0]/[1] tags, IA5String URL, UTF8String text/items, PrintableString registration number, OCTET STRING) and pass the strict DER reader. Non-trivial = tree with an authority of kind mail/url/ip or >= 2 optional members present; distinct by content."
+	r.Rule = "admission trees: optional top-level authority; 1-3 admissions each with optional authority (dns, mail, url, ip) and optional namingAuthority (every subset of oid/url/text); 1-3 professionInfos each with optional namingAuthority, 1-3 UTF-8 professionItems, 0-3 professionOids, optional PrintableString registrationNumber, optional addProfessionInfo (!binary up to 900 bytes or !null); 5% of names are 120-300 characters (long-form lengths inside explicit tags); a quarter of the cases have a second entity in the same run whose admission differs only in how the profession items are divided up ('a b' vs 'a','b'). Oracle: extnValue must equal byte for byte the AdmissionSyntax encoding built by the harness (explicit [0]/[1] tags, IA5String URL, UTF8String text/items, PrintableString registration number, OCTET STRING) and pass the strict DER reader. Non-trivial = tree with an authority of kind mail/url/ip or >= 2 optional members present; distinct by content."
 	r.Assumptions = []string{"empty professionInfos/professionItems lists and !empty addProfessionInfo are documented as 'not enforced' and not generated", "DirectoryString alternatives: gopki documents UTF8String; the oracle expects UTF8String"}
 	wrap := func(c c16Case) *core.Failure {
 		e := core.Extension{Kind: core.KADM, HasContent: true, Adm: &c.Adm, Critical: c.Critical}
@@ -32,6 +34,25 @@ func TestC16(t *testing.T) {
 			ext = ".json"
 		}
 		w := World{Ents: []core.Entity{{File: "adm" + ext, Subject: []core.RDN{{Key: "CN", Value: "admission"}}, Extensions: []core.Extension{e}, PlainScalars: c.Plain}}}
+		if c.Twin {
+			b, _ := json.Marshal(c.Adm)
+			var adm2 core.Admission
+			json.Unmarshal(b, &adm2)
+			for ai := range adm2.Contents {
+				for pi := range adm2.Contents[ai].Infos {
+					info := &adm2.Contents[ai].Infos[pi]
+					if len(info.Items) >= 2 {
+						info.Items = append([]string{info.Items[0] + " " + info.Items[1]}, info.Items[2:]...)
+					} else if parts := strings.SplitN(info.Items[0], " ", 2); len(parts) == 2 && parts[0] != "" && parts[1] != "" {
+						info.Items = parts
+					} else {
+						info.Items = []string{info.Items[0], info.Items[0]}
+					}
+				}
+			}
+			w.Ents = append(w.Ents, core.Entity{File: "adm2" + ext, Subject: []core.RDN{{Key: "CN", Value: "admission twin"}},
+				Extensions: []core.Extension{{Kind: core.KADM, HasContent: true, Adm: &adm2, Critical: c.Critical}}, PlainScalars: c.Plain})
+		}
 		f, kind := runExtWorld("C16", &w)
 		opt := 0
 		nt := false
@@ -44,7 +65,7 @@ func TestC16(t *testing.T) {
 			}
 		}
 		count(c.Adm.Authority)
-		cls := []string{"outcome:" + kind}
+		cls := []string{"outcome:" + kind, fmt.Sprintf("twin:%v", c.Twin)}
 		for _, a := range c.Adm.Contents {
 			count(a.Authority)
 			if a.Authority != nil {
@@ -109,7 +130,7 @@ func TestC16(t *testing.T) {
 				a.Contents[0].Infos[0].Items = append(a.Contents[0].Infos[0].Items, long)
 			}
 		}
-		c := c16Case{Adm: *a, JSON: rapid.IntRange(0, 3).Draw(t, "json") == 0, Plain: rapid.Bool().Draw(t, "plain")}
+		c := c16Case{Adm: *a, JSON: rapid.IntRange(0, 3).Draw(t, "json") == 0, Plain: rapid.Bool().Draw(t, "plain"), Twin: rapid.IntRange(0, 3).Draw(t, "twin") == 0}
 		switch rapid.IntRange(0, 2).Draw(t, "crit") {
 		case 0:
 			c.Critical = core.BoolP(true)
